@@ -14,6 +14,10 @@ A *script* is a list of ops (all times in ticks of 62.5 ms):
     ["resp_ready", p]          the snapshot of #p completes
     ["bad_http", p]            bytes that make h11 raise a protocol error
     ["bad_frame", p]           (encrypted connections only) a frame whose tag does not verify
+    ["cb", x, "echo"]          install a setter_callback on characteristic #x that confirms the written value
+    ["cb", x, "set_to", v2]      ... that clamps / normalises: char.set_value(v2)
+    ["cb", x, "set_other", y, w] ... that updates another characteristic: chars[y].set_value(w)
+                               (configuration: placed before the first request; raising callbacks are not in the alphabet)
     ["app_set", x, v]          char.set_value(v) by the application (on the loop thread)
     ["app_set_thread", x, v]   char.set_value(v) in a real worker thread (driver.tid is the loop thread,
                                so AccessoryDriver.publish defers through loop.call_soon_threadsafe);
@@ -148,14 +152,29 @@ def code_tables():
     return imm, nul
 
 
-def addr_of(a: int):
+def addr_of(a: int, v6: int = 0):
+    """peername reported by the transport for model address #a. v6 = 1: IPv6 peers, for which
+    asyncio reports 4-tuples (host, port, flowinfo, scope_id): #0 global, #1 link-local with a scope id"""
+    if v6 and a % 3 == 0:
+        return ("2001:db8::%x" % (a + 5), 50000 + a, 0, 0)
+    if v6 and a % 3 == 1:
+        return ("fe80::%x" % (a + 1), 50000 + a, 0, 3)
     return ("10.0.0.%d" % (a + 1), 50000 + a)
+
+
+def model_addr(peer):
+    """model address of whatever tuple (or prefix of it) the code uses as a key"""
+    try:
+        return int(peer[1]) - 50000
+    except Exception:  # noqa: BLE001
+        return -1
 
 
 class World:
     """One accessory (4 characteristics), one driver, one server, many connections."""
 
-    def __init__(self, crypto_conns=()):
+    def __init__(self, crypto_conns=(), v6=0):
+        self.v6 = v6
         import pyhap.accessory_driver as ad
         import pyhap.characteristic as ch
         from pyhap.accessory import Accessory
@@ -288,7 +307,7 @@ class World:
 
             idx = len(self.protos)
             proto = HAPServerProtocol(lp, self.driver.http_server.connections, self.driver)
-            tr = FakeTransport(self, idx, addr_of(op[1]))
+            tr = FakeTransport(self, idx, addr_of(op[1], self.v6))
             self.protos.append(proto)
             self.transports.append(tr)
             self.log.setdefault(idx, [])
@@ -347,6 +366,16 @@ class World:
             if n is not None and not self.snap_futs[n].done():
                 self.snap_futs[n].set_result(b"JPEG")
             lp.drain()
+        elif k == "cb":
+            ch_ = self.chars[op[1]]
+            if op[2] == "echo":
+                ch_.setter_callback = lambda value, c=ch_: c.set_value(value)
+            elif op[2] == "set_to":
+                ch_.setter_callback = lambda value, c=ch_, v2=op[3]: c.set_value(v2)
+            elif op[2] == "set_other":
+                ch_.setter_callback = lambda value, c=self.chars[op[3]], w=op[4]: c.set_value(w)
+            else:
+                raise ValueError("unknown callback kind %r" % (op,))
         elif k == "app_set":
             self.chars[op[1]].set_value(op[2])
         elif k == "app_set_thread":
@@ -385,13 +414,12 @@ class World:
     def digest(self):
         conns = self.driver.http_server.connections
         idx = {id(pr): i for i, pr in enumerate(self.protos)}
-        rev = {addr_of(a): a for a in range(16)}
-        reg = {str(rev.get(k, k)): idx.get(id(v), -1) for k, v in conns.items()}
+        reg = {str(model_addr(k)): idx.get(id(v), -1) for k, v in conns.items()}
         topics = {}
         for t, subs in self.driver.topics.items():
             aid, iid = t.split(".")
-            topics[str(self.iid_to_x.get(int(iid), t))] = sorted(rev.get(s, -1) for s in subs)
-        prep = {str(rev.get(k, k)): sorted(v.keys()) for k, v in self.driver.prepared_writes.items()}
+            topics[str(self.iid_to_x.get(int(iid), t))] = sorted(model_addr(s) for s in subs)
+        prep = {str(model_addr(k)): sorted(v.keys()) for k, v in self.driver.prepared_writes.items()}
         vals = [c.value for c in self.chars]
         return {"reg": reg, "topics": topics, "prepared": prep, "values": vals}
 
@@ -469,9 +497,9 @@ def parse_messages(data: bytes, iid_to_x):
     return msgs
 
 
-def run_script(ops, crypto_conns=(), want_digests=True):
+def run_script(ops, crypto_conns=(), want_digests=True, v6=0):
     """Run a script on the real code. Returns {"log": per-object decoded log, "digests": [...]}"""
-    w = World(crypto_conns)
+    w = World(crypto_conns, v6)
     try:
         digests = []
         for i, op in enumerate(ops):
@@ -483,7 +511,7 @@ def run_script(ops, crypto_conns=(), want_digests=True):
             "log": w.decoded_log(),
             "digests": digests,
             "final": w.digest(),
-            "addr": [w.transports[i].get_extra_info("peername")[1] - 50000 for i in range(len(w.protos))],
+            "addr": [model_addr(w.transports[i].get_extra_info("peername")) for i in range(len(w.protos))],
             "nobj": len(w.protos),
             "loop_errors": list(w.loop_errors),
         }
